@@ -83,16 +83,37 @@ type c14wState struct {
 	raw   *regInterp
 	via   *regInterp
 	spy   *errSpy
+	racer *c14wRacer
+}
+
+// c14wRacer sits between the wrapper and the underlying registry. When armed
+// (`wrap race <mem op>`), the next PushManifest that reaches the underlying registry is
+// followed at once by the armed operation, performed directly on the underlying registry:
+// another client that gets in between the wrapper's push and whatever the wrapper does next.
+type c14wRacer struct {
+	ociregistry.Interface
+	raw     *regInterp
+	pending string
+}
+
+func (r *c14wRacer) PushManifest(ctx context.Context, repo string, tag string, contents []byte, mediaType string) (ociregistry.Descriptor, error) {
+	d, err := r.Interface.PushManifest(ctx, repo, tag, contents, mediaType)
+	if p := r.pending; p != "" {
+		r.pending = ""
+		r.raw.do(p)
+	}
+	return d, err
 }
 
 func (st *c14wState) init(kind string) {
 	st.kind = kind
 	st.under = ocimem.New()
 	st.raw = newRegInterp(st.under)
+	st.racer = &c14wRacer{Interface: st.under, raw: st.raw}
 	if kind == "imm" {
-		st.spy = &errSpy{Interface: ocifilter.Immutable(st.under)}
+		st.spy = &errSpy{Interface: ocifilter.Immutable(st.racer)}
 	} else {
-		st.spy = &errSpy{Interface: ocifilter.ReadOnly(st.under)}
+		st.spy = &errSpy{Interface: ocifilter.ReadOnly(st.racer)}
 	}
 	st.via = newRegInterp(st.spy)
 }
@@ -121,9 +142,24 @@ func c14wLine(st *c14wState, l string) string {
 	switch t[1] {
 	case "raw":
 		return st.raw.do("mem " + strings.Join(t[2:], " "))
+	case "race":
+		if len(t) < 8 || t[2] != "pushmanifest" { // the last field(s) are the decoding hint for the model
+			return "bad-op"
+		}
+		for _, x := range t[3:7] {
+			if _, ok := untok(x); !ok {
+				return "bad-op"
+			}
+		}
+		st.racer.pending = "mem " + strings.Join(t[2:], " ")
+		return "ok"
 	case "via":
 		st.spy.last = nil
+		armed := st.racer.pending != ""
 		out := st.via.do("mem " + strings.Join(t[2:], " "))
+		if armed && st.racer.pending == "" {
+			out += " +raced"
+		}
 		if st.kind == "ro" && len(t) > 2 && c14wMutators[t[2]] && out == "err UNSUPPORTED" && !errors.Is(st.spy.last, ociregistry.ErrUnsupported) {
 			return "err UNSUPPORTED-but-not-errors.Is-ErrUnsupported"
 		}
@@ -207,6 +243,10 @@ func (*c14w) Gen(rng *RNG, tier string) []Case {
 		lines = append(lines, snap)
 		var writers []string
 		for k := 5 + rng.Intn(maxLen); k > 0; k-- {
+			if kind == "imm" && rng.Chance(1, 12) {
+				m := pick(rng, u.manifests)
+				lines = append(lines, "wrap race "+strings.TrimPrefix(linePushManifest(pick(rng, u.repos), pick(rng, u.tags), m.data, m.mt), "mem "))
+			}
 			via(u.genOp(rng, &writers))
 			if rng.Chance(1, 10) {
 				lines = append(lines, snap)
@@ -317,6 +357,26 @@ func c14wDirected(rng *RNG) []Case {
 		via(fmt.Sprintf("mem gettag %s %s", tok("a"), tok("t2"))),
 		"wrap snap "+strings.Join(append(ds, tok(sha256Digest([]byte("new")))), " "))
 	cases = append(cases, Case{Tag: "imm", Lines: lines})
+	// immutable: another client creates the same tag right after the wrapper's own push reached the
+	// registry (the race the wrapper's final ResolveTag is there for): the loser is told DENIED
+	race := func(l string) string { return "wrap race " + strings.TrimPrefix(l, "mem ") }
+	for _, same := range []bool{false, true} {
+		theirs := op
+		if same {
+			theirs = m1
+		}
+		lines = seed("imm")
+		lines = append(lines,
+			race(linePushManifest("a", "raced", theirs.data, theirs.mt)),
+			via(linePushManifest("a", "latest", op.data, op.mt)), // refused before any push: the competitor stays armed
+			via(linePushManifest("a", "raced", m1.data, m1.mt)),
+			via(fmt.Sprintf("mem resolvetag %s %s", tok("a"), tok("raced"))),
+			via(fmt.Sprintf("mem gettag %s %s", tok("a"), tok("raced"))),
+			via(linePushManifest("a", "raced", m1.data, m1.mt)),
+			via(linePushManifest("a", "raced", op.data, op.mt)),
+			snap)
+		cases = append(cases, Case{Tag: "imm-race", Lines: lines})
+	}
 	return cases
 }
 
@@ -409,8 +469,21 @@ func (*c14w) Oracle(c Case, impl []string) []Failure {
 				continue
 			}
 			op := t[2]
+			if strings.HasSuffix(got, " +raced") {
+				// the armed competitor mutated the underlying registry directly during this call,
+				// before the wrapper answered: earlier observations no longer bind, the answer does
+				got = strings.TrimSuffix(got, " +raced")
+				prev, prevAt = nil, -1
+				tagSeen, tagBytes = map[string]string{}, map[string]string{}
+			}
 			if kind == "ro" && c14wMutators[op] && got != "err UNSUPPORTED" {
 				fail("c14w-ro-mutator-not-unsupported:"+op, "readonly_mutators_unsupported", "err UNSUPPORTED (errors.Is ErrUnsupported)")
+			}
+			if kind == "imm" && op == "pushmanifest" && len(t) >= 7 && t[4] != "x" {
+				// told that the push of this tag succeeded = told what the tag resolves to
+				if f := strings.Fields(got); len(f) == 4 && f[0] == "desc" {
+					observe(t[3]+" "+t[4], f[2], t[5])
+				}
 			}
 			if kind == "imm" && strings.HasPrefix(op, "delete") && !strings.HasPrefix(got, "err ") {
 				fail("c14w-imm-delete-succeeds:"+op, "immutable_never_deletes", "an error")
